@@ -308,8 +308,10 @@ FinishStep(x0) ==
   LET x == Begin(x0) IN
   IF FinishCancelled(x) THEN FailFinish(x, CancelClass(x))
   ELSE IF FinishStepAltEnabled(x) THEN FinishStepAlt(x0)
-  \* the hello call had already timed out when the connection closed: the caller gets the timeout
-  ELSE IF x.cs = "closed" /\ x.fi.pc = "hello" /\ x.calls["hl"].wake = "TimeoutAPIError" THEN FailFinish(x, "TimeoutAPIError")
+  \* the hello call had already failed (timed out, or woken by the close with the cause known at that moment)
+  \* when the phase resumes on a closed connection: the caller gets what the call failed with, even if a later
+  \* event (Noise frames behind the closing frame) recorded another cause meanwhile - the first cause wins (C09)
+  ELSE IF x.cs = "closed" /\ x.fi.pc = "hello" /\ x.calls["hl"].wake \in API THEN FailFinish(x, x.calls["hl"].wake)
   ELSE IF x.cs = "closed" THEN FailFinish(x, "interrupted")
   ELSE IF x.fi.pc = "create" THEN
      \* create_connection returned: assign helper, arm the handshake timer
